@@ -44,7 +44,8 @@ OneOf(S) == CHOOSE x \in S : TRUE
 \* other fields reduced
 SmallEntries ==
     {X509(ts, c, a, i, f) : ts \in TsDom, c \in BlobSmall, a \in BOOLEAN, i \in IdxDom, f \in FpsSmall}
-    \cup {Pre(ts, k, c, p, a, i, f) : ts \in TsDom, k \in IkhDom, c \in BlobSmall, p \in BlobSmall,
+    \cup {Pre(ts, k, c, p, a, i, f) : ts \in (IF Thorough THEN TsDom ELSE {Small(1), <<32767, 65535, 65535, 65535>>}),
+                                     k \in IkhDom, c \in BlobSmall, p \in BlobSmall,
                                      a \in BOOLEAN, i \in IdxDom, f \in FpsSmall}
 BigEntries ==
     IF Thorough THEN
